@@ -386,6 +386,17 @@ func scenarios() []hx.Scenario {
 			add(scen{c: c, adders: [][]int{g}, consumer: 'p', timeline: true}, 2, mc.TimerGo123, len(g) > 3)
 		}
 	}
+	// (a°) the same histories under the timer semantics of Go < 1.23 (a fired
+	// timer's tick stays in its channel until it is received or drained: what a
+	// consumer built with an older language version, and every fake clock,
+	// gives the limiter): an Add that arrives exactly when the window ends meets
+	// an expired timer whose tick has not been handled yet
+	for ci, c := range []cfg{{2, 4, 0}, {2, 8, 2}} {
+		for _, g := range seqs(gaps, 4) {
+			g[0] = 0
+			add(scen{c: c, adders: [][]int{g}, consumer: 'p', timeline: true}, 2, mc.TimerLegacy, len(g) > 3 || ci > 0 || len(g) > 2 && g[1] != 2 && g[1] != 0)
+		}
+	}
 	// (a+) a consumer that is slow, or comes to the channel only long after the
 	// signal was raised: the signal waits for it, no Add is lost
 	for _, c := range []cfg{{2, 4, 0}, {2, 8, 2}} {
